@@ -4,6 +4,8 @@ import (
 	"fmt"
 	"go/token"
 	"go/types"
+	"sort"
+	"strings"
 
 	"golang.org/x/tools/go/ssa"
 
@@ -132,6 +134,7 @@ func (pr *proto) refl1() {
 		}
 		pr.reflHelper(fn)
 	}
+	pr.reflArrayWriter()
 }
 
 // reflHelper checks one reflective field enumerator.
@@ -198,5 +201,219 @@ func (pr *proto) reflHelper(fn *ssa.Function) {
 		if !bad {
 			pr.rep.hold("REFL-1", construct, fn.Pos(), fmt.Sprintf("field loop 0..NumField()-1 with no early exit, %d nested element loop(s) over 0..Len()-1, result map filled in the loop", nInner))
 		}
+		pr.refl2(fn, outer, retMap)
+	}
+}
+
+// REFL-2: value currency of the reflective enumeration. What is stored into the result
+// map under the key of field i belongs to field i alone:
+//   - key and stored value (for slice values: every appended element) derive from the
+//     accessors of the *current* field (reflect Field(i) with i the field loop's counter);
+//   - a slice stored under a key is a distinct allocation per key: walking back from the
+//     stored value through append (first argument), re-slicing, phis, conversions and
+//     local variables, every alias root is created inside the iteration (make, literal,
+//     nil, a cloning call) or is the map's own entry for the same key. A root that is a
+//     phi at the field loop's header, or is defined outside the loop (one scratch slice
+//     re-sliced to [:0] per field), is shared across keys: collecting a later field
+//     overwrites the elements stored for an earlier one, so Dependencies() loses or
+//     mis-attributes inputs and an update of the lost input is never noticed.
+func (pr *proto) refl2(fn *ssa.Function, outer *ssau.Loop, retMap ssa.Value) {
+	construct := pr.c.P.FuncName(fn)
+	// the field counter
+	var idx *ssa.Phi
+	if ifi := flow.IfOf(outer.Header); ifi != nil {
+		if v, _ := flow.BoolTest(ifi.Cond); v != nil {
+			if b, ok := v.(*ssa.BinOp); ok {
+				for _, o := range []ssa.Value{b.X, b.Y} {
+					if ph, isP := o.(*ssa.Phi); isP && ph.Block() == outer.Header {
+						idx = ph
+					}
+				}
+			}
+		}
+	}
+	fromCurrentField := func(v ssa.Value) bool {
+		return idx != nil && derivesC11(v, func(y ssa.Value) bool {
+			c, ok := y.(*ssa.Call)
+			if !ok {
+				return false
+			}
+			cal := flow.Callee(c)
+			if cal == nil || cal.Name() != "Field" || cal.Pkg() == nil || cal.Pkg().Path() != "reflect" {
+				return false
+			}
+			for _, a := range c.Common().Args {
+				if a == ssa.Value(idx) {
+					return true
+				}
+			}
+			return false
+		})
+	}
+	inLoop := func(v ssa.Value) bool {
+		in, ok := v.(ssa.Instruction)
+		return ok && outer.Blocks[in.Block()]
+	}
+	var problems []string
+	nStores := 0
+	for b := range outer.Blocks {
+		for _, in := range b.Instrs {
+			mu, ok := in.(*ssa.MapUpdate)
+			if !ok || flow.StripAll(mu.Map) != retMap {
+				continue
+			}
+			nStores++
+			if !fromCurrentField(mu.Key) {
+				problems = append(problems, "the key does not derive from the current field (Field(i))")
+			}
+			_, isSlice := mu.Value.Type().Underlying().(*types.Slice)
+			if !isSlice {
+				if !fromCurrentField(mu.Value) {
+					problems = append(problems, "the stored value does not derive from the current field (Field(i))")
+				}
+				continue
+			}
+			// alias roots of the stored slice, and the elements appended on the way
+			seen := map[ssa.Value]bool{}
+			var walk func(v ssa.Value)
+			walk = func(v ssa.Value) {
+				if v == nil || seen[v] {
+					return
+				}
+				seen[v] = true
+				switch x := v.(type) {
+				case *ssa.Const:
+					return // nil
+				case *ssa.Phi:
+					if x.Block() == outer.Header {
+						problems = append(problems, "the stored slice is carried round the field loop (one slice shared by all keys)")
+						return
+					}
+					for _, e := range x.Edges {
+						walk(e)
+					}
+				case *ssa.Slice:
+					walk(x.X)
+				case *ssa.ChangeType:
+					walk(x.X)
+				case *ssa.Convert:
+					walk(x.X)
+				case *ssa.MakeSlice:
+					if !inLoop(x) {
+						problems = append(problems, "the stored slice is allocated once, outside the field loop, and shared by all keys")
+					}
+				case *ssa.Alloc:
+					if !inLoop(x) {
+						problems = append(problems, "the stored slice's backing array is allocated outside the field loop")
+					}
+				case *ssa.UnOp:
+					if cell, isCell := x.X.(*ssa.Alloc); isCell && x.Op == token.MUL {
+						if !inLoop(cell) {
+							// a variable declared before the loop: what it holds when loaded may come from an earlier field
+							stale := true
+							for _, r := range ssau.Refs(cell) {
+								if st, isSt := r.(*ssa.Store); isSt && st.Addr == ssa.Value(cell) && inLoop(st.Val) && ssau.Before(st, x) {
+									stale = false // re-initialised in this iteration before the load
+									walk(st.Val)
+								}
+							}
+							if stale {
+								problems = append(problems, "the stored slice lives in a variable declared outside the field loop and is not re-created per field")
+							}
+							return
+						}
+						for _, r := range ssau.Refs(cell) {
+							if st, isSt := r.(*ssa.Store); isSt && st.Addr == ssa.Value(cell) {
+								walk(st.Val)
+							}
+						}
+						return
+					}
+					problems = append(problems, "the stored slice is loaded from memory that outlives the iteration")
+				case *ssa.Lookup:
+					// the map's own entry for the same key: append(out[k], e)
+					if flow.StripAll(x.X) == retMap && (x.Index == mu.Key || fromCurrentField(x.Index)) {
+						return
+					}
+					problems = append(problems, "the stored slice aliases another map entry")
+				case *ssa.Extract:
+					walk(x.Tuple)
+				case *ssa.Call:
+					if ssau.Builtin(x) == "append" {
+						for _, e := range x.Call.Args[1:] {
+							if !fromCurrentField(e) {
+								problems = append(problems, "an appended element does not derive from the current field (Field(i).Index(j))")
+							}
+						}
+						walk(x.Call.Args[0])
+						return
+					}
+					if cal := flow.Callee(x); cal != nil && cal.Pkg() != nil && cal.Pkg().Path() == "slices" && (cal.Name() == "Clone" || cal.Name() == "Concat") {
+						if !inLoop(x) {
+							problems = append(problems, "the cloned slice is made outside the field loop")
+						}
+						for _, a := range x.Call.Args {
+							if !fromCurrentField(a) {
+								problems = append(problems, "the cloned elements do not derive from the current field")
+							}
+						}
+						return
+					}
+					problems = append(problems, "the stored slice is the result of a call whose aliasing is not known ("+x.Call.Value.Name()+")")
+				default:
+					if !inLoop(v) {
+						problems = append(problems, "the stored slice is defined outside the field loop")
+					}
+				}
+			}
+			walk(mu.Value)
+		}
+	}
+	if nStores == 0 {
+		return // REFL-1 already reported an unfilled map
+	}
+	if len(problems) > 0 {
+		sort.Strings(problems)
+		uniq := problems[:0]
+		for i, p := range problems {
+			if i == 0 || p != problems[i-1] {
+				uniq = append(uniq, p)
+			}
+		}
+		pr.rep.violate("REFL-2", construct, fn.Pos(), strings.Join(uniq, "; ")+": what is stored for one field can be overwritten or mixed with another field's inputs, so Dependencies() loses or mis-attributes an input and its updates go unnoticed (stale value, unchanged version)")
+		return
+	}
+	pr.rep.hold("REFL-2", construct, fn.Pos(), fmt.Sprintf("%d store(s) into the result map: key and values from the current field, slices allocated per key", nStores))
+}
+
+// reflArrayWriter: AddToStructFieldArray appends exactly the value it is given to the field it is asked for.
+func (pr *proto) reflArrayWriter() {
+	fn := pr.c.P.Func("refutil", "AddToStructFieldArray")
+	if fn == nil || fn.Blocks == nil || len(fn.Params) < 3 {
+		pr.c.R.Failf("anchor refutil.AddToStructFieldArray not found")
+		return
+	}
+	construct := pr.c.P.FuncName(fn)
+	ok := false
+	ssau.AllInstrs(fn, func(in ssa.Instruction) {
+		c, isC := in.(*ssa.Call)
+		if !isC {
+			return
+		}
+		cal := flow.Callee(c)
+		if cal == nil || cal.Pkg() == nil || cal.Pkg().Path() != "reflect" || cal.Name() != "Append" || len(c.Call.Args) < 2 {
+			return
+		}
+		from := func(v ssa.Value, p *ssa.Parameter) bool {
+			return derivesC11(v, func(y ssa.Value) bool { return y == ssa.Value(p) })
+		}
+		if from(c.Call.Args[0], fn.Params[0]) && from(c.Call.Args[0], fn.Params[1]) && from(c.Call.Args[1], fn.Params[2]) && !from(c.Call.Args[1], fn.Params[1]) {
+			ok = true
+		}
+	})
+	if ok {
+		pr.rep.hold("REFL-2", construct, fn.Pos(), "reflect.Append(field named by the argument, the given value)")
+	} else {
+		pr.rep.violate("REFL-2", construct, fn.Pos(), "the array writer does not append the given value to the field it is asked for: SetInput wires something else than requested")
 	}
 }
